@@ -439,7 +439,8 @@ void newlines_cleanup_braces(bool first)
                else
                {
                   // Step back from next to the first non-newline item
-                  Chunk *tmp = next->GetPrev();
+                  // (nothing but comments up to the end of the file: start at the tail)
+                  Chunk *tmp = next->IsNotNullChunk() ? next->GetPrev() : Chunk::GetTail();
 
                   while (tmp != pc)
                   {
